@@ -1263,7 +1263,10 @@ func (m *Manager) handleMessage(tm *TaskmanMessage) error {
 				mesosState == mesos.TASK_STARTING ||
 				mesosState == mesos.TASK_RUNNING ||
 				mesosState == mesos.TASK_KILLING ||
-				mesosState == mesos.TASK_UNKNOWN) {
+				mesosState == mesos.TASK_UNKNOWN) &&
+			m.GetTask(mesosStatus.GetTaskID().Value) == nil {
+			// Implicit reconciliation is requested on every (re)subscription and makes the master report all
+			// non-terminal tasks of the framework, so we must only kill those we do not know about.
 			killCall := calls.Kill(mesosStatus.TaskID.GetValue(), mesosStatus.AgentID.GetValue())
 			calls.CallNoData(context.TODO(), m.schedulerState.cli, killCall)
 		} else {
